@@ -890,7 +890,7 @@ func (fg *FuncGen) siteAsserts(v *ssa.Call, callee *ssa.Function, args []TTerm) 
 	}
 	ord := fg.siteOrd[v]
 	for _, sa := range fg.c.Sites {
-		if sa.Callee != name || (sa.N != 0 && sa.N != ord) || sa.Invariant {
+		if sa.Callee != name || (sa.N != 0 && sa.N != ord) || sa.Invariant || sa.Ordered {
 			continue
 		}
 		if fg.siteUsed == nil {
@@ -1050,9 +1050,16 @@ func (fg *FuncGen) callbackModel(v *ssa.Call, callee *ssa.Function, con *Contrac
 	if !ok {
 		return
 	}
-	var invs []*SiteAssert
+	var invs, ords []*SiteAssert
 	ord := fg.siteOrd[v]
 	for _, sa := range fg.c.Sites {
+		if sa.Ordered && sa.Callee == plainName(callee) && (sa.N == 0 || sa.N == ord) {
+			ords = append(ords, sa)
+			if fg.siteUsed == nil {
+				fg.siteUsed = map[*SiteAssert]bool{}
+			}
+			fg.siteUsed[sa] = true
+		}
 		if sa.Invariant && sa.Callee == plainName(callee) && (sa.N == 0 || sa.N == ord) {
 			invs = append(invs, sa)
 			if fg.siteUsed == nil {
@@ -1176,6 +1183,10 @@ func (fg *FuncGen) callbackModel(v *ssa.Call, callee *ssa.Function, con *Contrac
 				env.vars[fv.Name()] = TTerm{S: b.S, Sort: "Int", T: fv.Type()}
 			}
 		}
+		cbr := fg.fresh("cbr")
+		fg.emit("(declare-const %s Int)", cbr)
+		env.vars["result"] = TTerm{S: cbr, Sort: "Int"}
+		env.vars["result0"] = TTerm{S: cbr, Sort: "Int"}
 		for _, en := range lcon.Ensures {
 			t := env.Tr(en.E)
 			if fg.clauseFailed(en) {
@@ -1203,6 +1214,62 @@ func (fg *FuncGen) callbackModel(v *ssa.Call, callee *ssa.Function, con *Contrac
 		fg.assume(t.S)
 	}
 	fg.assume(fmt.Sprintf("(=> (>= (slen %s) 2) (forall ((k Int)) (! (=> (and (<= 0 k) (< k (slen %s))) (select %s k)) :pattern ((select %s k)) :pattern (%s))))", x.S, x.S, seen3, seen3, elem("k").S))
+	// 4. what the callee is trusted to have done with the slice: the final contents are a permutation of the former ones
+	// (always), and - under the guard of an `ordered` site clause, which has to imply that the comparator was a strict
+	// weak order on the elements - ascending with respect to the comparator.  The comparator's value is the function
+	// cbres; all that is known about it are the literal's own proved `pure.*` postconditions (clauses that mention
+	// neither the heap nor captured variables), instantiated for arbitrary arguments.
+	if len(ords) == 0 {
+		return
+	}
+	after := func(k string) TTerm {
+		return TTerm{S: "(gat " + fg.famIn(fg.st, qv) + " " + x.S + " " + k + ")", Sort: "Val"}
+	}
+	perm, inv := fg.fresh("cbperm"), fg.fresh("cbinv")
+	fg.emit("(declare-fun %s (Int) Int)", perm)
+	fg.emit("(declare-fun %s (Int) Int)", inv)
+	fg.assume(fmt.Sprintf("(forall ((k Int)) (! (=> (and (<= 0 k) (< k (slen %s))) (and (<= 0 (%s k)) (< (%s k) (slen %s)) (= (%s (%s k)) k) (= %s %s))) :pattern (%s) :pattern ((%s k))))",
+		x.S, perm, perm, x.S, inv, perm, after("k").S, elem("("+perm+" k)").S, after("k").S, perm))
+	fg.assume(fmt.Sprintf("(forall ((k Int)) (! (=> (and (<= 0 k) (< k (slen %s))) (and (<= 0 (%s k)) (< (%s k) (slen %s)) (= (%s (%s k)) k))) :pattern (%s) :pattern ((%s k))))",
+		x.S, inv, inv, x.S, perm, inv, elem("k").S, inv))
+	cbres := fg.fresh("cbres")
+	fg.emit("(declare-fun %s (Val Val) Int)", cbres)
+	if lcon := g.Spec.Contracts[FuncKey(lit)]; lcon != nil {
+		for _, en := range lcon.Ensures {
+			if !strings.HasPrefix(en.Label, "pure.") {
+				continue
+			}
+			if strings.Contains(en.Text, "cell(") || strings.Contains(en.Text, "old(") || strings.Contains(en.Text, "heap") {
+				fg.emit("; pure clause %s of %s mentions state: ignored", en.Label, FuncKey(lit))
+				continue
+			}
+			env := fg.baseEnv(fg.st, fg.st)
+			env.assume = true
+			for k, p := range lit.Params {
+				if k == 0 {
+					env.vars[p.Name()] = TTerm{S: "cb_pa", Sort: "Val"}
+				} else if k == 1 {
+					env.vars[p.Name()] = TTerm{S: "cb_pb", Sort: "Val"}
+				}
+			}
+			rt := TTerm{S: "(" + cbres + " cb_pa cb_pb)", Sort: "Int"}
+			env.vars["result"] = rt
+			env.vars["result0"] = rt
+			t := env.Tr(en.E)
+			if fg.clauseFailed(en) {
+				continue
+			}
+			fg.assume(fmt.Sprintf("(forall ((cb_pa Val) (cb_pb Val)) (! %s :pattern ((%s cb_pa cb_pb))))", t.S, cbres))
+		}
+	}
+	for _, sa := range ords {
+		gd := envFor(fg.st, seen3).Tr(sa.C.E)
+		if fg.clauseFailed(sa.C) {
+			continue
+		}
+		fg.assume(fmt.Sprintf("(=> %s (forall ((i Int) (j Int)) (! (=> (and (<= 0 i) (< i j) (< j (slen %s))) (<= (%s %s %s) 0)) :pattern (%s %s))))",
+			gd.S, x.S, cbres, after("i").S, after("j").S, after("i").S, after("j").S))
+	}
 }
 
 // plainName: the function's name without the type arguments of a generic instantiation (SortFunc[[]any,any] -> SortFunc)
